@@ -13,7 +13,7 @@ MANIFEST = dict(
 
 
 def check(ctx):
-    rows = R.run_kind(ctx, 'reuse')
+    rows = run_reuse(ctx)
     R.compare(ctx, rows, proj_all, 'C12 re-subscription / re-application of one operator value',
               nontrivial=lambda c, gd: 'N' in c and gd.get('t1', '-') != '-')
     C04_more.parts_C12(ctx)
